@@ -400,6 +400,120 @@ def _work_corpus(chunk):
     return part.result()
 
 
+# ---- registered-types family -----------------------------------------------------------------------------------------
+# GType-registered enumeration, bitfield, boxed record, boxed union and interface (from the runtime dump), each with a
+# helper function that the scanner nests INSIDE the element (<function> in <enumeration>/<bitfield>/<record>/<union>/
+# <interface>), crossed with the ways a record can name its copy/free functions.
+REG_ITEMS = {
+    'genum': ([lambda: Enum('FooMode', [('FOO_MODE_A', 0), ('FOO_MODE_B', 1)]),
+               lambda: Func('foo_mode_get_type', 'GType', []),
+               lambda: Func('foo_mode_from_string', 'FooMode', [('const char*', 's')])],
+              '<enum name="FooMode" get-type="foo_mode_get_type"><member name="FOO_MODE_A" nick="a" value="0"/>'
+              '<member name="FOO_MODE_B" nick="b" value="1"/></enum>'),
+    'gflags': ([lambda: Enum('FooPerm', [('FOO_PERM_R', 1), ('FOO_PERM_W', 2)], bitfield=True),
+                lambda: Func('foo_perm_get_type', 'GType', []),
+                lambda: Func('foo_perm_from_mask', 'FooPerm', [('guint', 'mask')])],
+               '<flags name="FooPerm" get-type="foo_perm_get_type"><member name="FOO_PERM_R" nick="r" value="1"/>'
+               '<member name="FOO_PERM_W" nick="w" value="2"/></flags>'),
+    'gboxed': ([lambda: TypedefAnon('FooBox', [Field('w', 'int'), Field('h', 'int')]),
+                lambda: Func('foo_box_get_type', 'GType', []),
+                lambda: Func('foo_box_copy', 'FooBox*', [('FooBox*', 'self')]),
+                lambda: Func('foo_box_free', 'void', [('FooBox*', 'self')]),
+                lambda: Func('foo_box_parse', 'gboolean', [('const char*', 's'), ('GError**', 'error')])],
+               '<boxed name="FooBox" get-type="foo_box_get_type"/>'),
+    'gunion': ([lambda: TypedefAnon('FooAny', [Field('i', 'int'), Field('d', 'double')], union=True),
+                lambda: Func('foo_any_get_type', 'GType', []),
+                lambda: Func('foo_any_is_int', 'gboolean', [('FooAny*', 'self')]),
+                lambda: Func('foo_any_zero', 'int', [])],
+               '<boxed name="FooAny" get-type="foo_any_get_type"/>'),
+    'giface': ([lambda: Typedef('FooIface', 'struct _FooIface'),
+                lambda: Typedef('FooIfaceInterface', 'struct _FooIfaceInterface'),
+                lambda: Struct('_FooIfaceInterface', [Field('g_iface', 'GTypeInterface'),
+                                                       FieldCb('poke', 'void', [('FooIface*', 'self')])]),
+                lambda: Func('foo_iface_get_type', 'GType', []),
+                lambda: Func('foo_iface_poke', 'void', [('FooIface*', 'self')]),
+                lambda: Func('foo_iface_count', 'int', [])],
+               '<interface name="FooIface" get-type="foo_iface_get_type"><prerequisite name="GObject"/></interface>'),
+}
+# an opaque record FooThing and how its copy/free functions are named: (annotation on the record, annotation on
+# foo_thing_free, whether a differently-prefixed release function is declared)
+THING_VARIANTS = [None] + [(cf, skip, where)
+                           for cf in ('free', 'copy', 'both')
+                           for skip in (False, True)
+                           for where in ('method', 'function', 'missing')]
+
+
+def reg_cases(tier):
+    keys = sorted(REG_ITEMS)
+    out = []
+    for r in range(len(keys) + 1):
+        for sub in itertools.combinations(keys, r):
+            for tv in (THING_VARIANTS if (tier == 'thorough' or r <= 1 or r == len(keys)) else THING_VARIANTS[:1]):
+                out.append((sub, tv))
+    return out
+
+
+def build_reg_case(sub, tv):
+    decls = [f() for f in BASE]
+    dump = ['<?xml version="1.0"?><repository>']
+    for k in sub:
+        fs, d = REG_ITEMS[k]
+        decls += [f() for f in fs]
+        dump.append(d)
+    dump.append('</repository>')
+    comments = []
+    if tv is not None:
+        cf, skip, where = tv
+        decls.append(TypedefAnon('FooThing', [Field('x', 'int')]))
+        decls.append(Func('foo_thing_new', 'FooThing*', []))
+        names = {}
+        for what in (('free',) if cf == 'free' else ('copy',) if cf == 'copy' else ('copy', 'free')):
+            fn = 'foo_thing_%s' % what if where != 'function' else 'foo_%s_a_thing' % what
+            names[what] = fn
+            if where != 'missing':
+                decls.append(Func(fn, 'void' if what == 'free' else 'FooThing*', [('FooThing*', 'thing')]))
+                if skip:
+                    comments.append(scanrun.comment(scanrun.block(fn, [('thing', '')], ident_ann='(skip)'), line=300 + 20 * len(comments)))
+        ann = ' '.join('(%s-func %s)' % (w, n) for w, n in sorted(names.items()))
+        comments.append(scanrun.comment(scanrun.block('FooThing', [], ident_ann=ann), line=500))
+    number(decls)
+    return decls, comments, ''.join(dump)
+
+
+def _work_reg(chunk):
+    part = Part()
+    asan, cases = chunk
+    b = cbuild.build(asan)
+    wd = tools.workdir('c15g')
+    try:
+        for sub, tv in cases:
+            decls, comments, dump = build_reg_case(sub, tv)
+            r = scanrun.scan(decls, comments, includes=['Gio-2.0', 'GObject-2.0'], dump=dump, shared_libraries=['libfoo.so'])
+            part.add(evaluations=1, states=1, transitions=len(sub) + 1)
+            if r.error or r.xml is None:
+                part.outcome(('scanner-error', (r.error or '')[:40]))
+                part.add(unspecified=1)
+                continue
+            for k in sub:          # the point of the family: the helper really is nested in the registered element
+                if ('glib:get-type="foo_%s_get_type"' % REG_ITEMS[k][0][0]().name[3:].lower()).encode() not in r.xml:
+                    part.violation('harness:reg-not-registered:%s' % k, 'the scanned GIR does not register %s' % k,
+                                   {'reg': list(sub), 'thing': tv, 'c': fake.c_of(decls)})
+            probs = check_gir(b, r.xml, wd, [DEPS], 'Foo-1.0')
+            part.add(traces_validated_against_impl=1)
+            part.nontrivial(repr((sub, tv)))
+            part.outcome(('reg', tuple(sorted(set(p[0] for p in probs)))))
+            for kind, text in probs:
+                part.violation('%s:reg:%s:%s|%s' % (kind, '+'.join(sub), '-'.join(map(str, tv)) if tv else 'nothing', norm(text)), text,
+                               {'reg': list(sub), 'thing': list(tv) if tv else None, 'c': fake.c_of(decls),
+                                'comments': [c[0] for c in comments], 'dump': dump})
+        if cases:
+            d, c, dump = build_reg_case(*cases[-1])
+            part.sample({'c': fake.c_of(d)[-300:], 'dump': dump[:300]})
+    finally:
+        tools.cleanup(wd)
+    return part.result()
+
+
 def _mentions_missing_dep(text):
     return ('Type reference' in text and 'not found' in text) or 'could not be found' in text.lower()
 
@@ -446,6 +560,8 @@ def run(ctx):
         ctx.merge(r)
     for r in pmap(_work_dep, [(thorough, c) for c in chunked(rotate(dep_cases(ctx.tier), ctx.seed), 16)]):
         ctx.merge(r)
+    for r in pmap(_work_reg, [(thorough, c) for c in chunked(rotate(reg_cases(ctx.tier), ctx.seed), 16)]):
+        ctx.merge(r)
     ctx.assumptions += ['scanner inputs are symbol trees (the C lexer/parser extension cannot be built here)',
                         'miniature deps GIRs; corpus files whose includes are unavailable are skipped and listed',
                         'glibshim (trusted base); decoder vt/typelib.py; expectation derived from the GIR by vt/c/gir2expect.py '
@@ -472,6 +588,14 @@ def replay(ctx, case):
                 print('scanner error', r.error)
                 return True
             probs = check_gir(b, r.xml, wd, [DEPDIR15, DEPS], 'Foo-1.0')
+        elif 'reg' in case:
+            decls, comments, dump = build_reg_case(tuple(case['reg']), tuple(case['thing']) if case['thing'] else None)
+            r = scanrun.scan(decls, comments, includes=['Gio-2.0', 'GObject-2.0'], dump=dump, shared_libraries=['libfoo.so'])
+            print(fake.c_of(decls)); print([c[0] for c in comments])
+            if r.xml is None:
+                print('scanner error', r.error)
+                return True
+            probs = check_gir(b, r.xml, wd, [DEPS], 'Foo-1.0')
         elif 'site' in case:
             decls, comments = build_site_case(case['site'], case['ann'])
             r = scanrun.scan(decls, comments, includes=['Gio-2.0'], shared_libraries=['libfoo.so'])
